@@ -13,7 +13,7 @@ res = {}
 for f in sys.argv[1:]:
     mode = 'repo' if 'official' in f else 'worktree'
     for line in open(f, errors='replace'):
-        m = re.match(r'^(C\d\d-[\w-]+) (C\d\d): (.*)$', line.strip())
+        m = re.match(r'^(C\d\d(?:r2)?-[\w-]+) (C\d\d): (.*)$', line.strip())
         if not m:
             continue
         name, chk, out = m.groups()
